@@ -3,6 +3,9 @@ from .enc import NOF
 
 EN_BASES = ['S', 'N', 'NP', 'PP']
 EN_FEATS = ['', '', 'dcl', 'X', 'nb', 'em', 'b', 'adj']
+# names that other parts of depccg treat specially (the conjunct marker of the bank, atom and punctuation names used as feature values):
+# only for the checks of the category text / value contract (C05, C13), never for rule oracles
+EN_FEATS_WIDE = EN_FEATS + ['conj', 'conj', 'ng', 'pss', 'to', 'S', 'N', 'LRB', 'nb', 'X']
 PUNCT = [',', '.', ';', ':', 'conj', 'LRB', 'RRB']
 JA_KEYS = [('mod', ['nm', 'adn', 'adv', 'X1']), ('form', ['base', 'cont', 'stem', 'X2']), ('fin', ['f', 't', 'X3'])]
 JA_NP = [('case', ['ga', 'o', 'ni', 'nc', 'X1']), ('mod', ['nm', 'X1', 'X2']), ('fin', ['f', 't', 'X2'])]
@@ -24,20 +27,20 @@ def fun(l, s, r):
     return {'k': 'F', 'l': l, 's': s, 'r': r}
 
 
-def rand_atom(rng, system):
+def rand_atom(rng, system, feats=None):
     if system == 'en':
         if rng.random() < 0.12:
             return atom(rng.choice(PUNCT))
-        return atom(rng.choice(EN_BASES), uf(rng.choice(EN_FEATS)))
+        return atom(rng.choice(EN_BASES), uf(rng.choice(feats or EN_FEATS)))
     if rng.random() < 0.5:
         return atom('S', tf(JA_KEYS, rng))
     return atom('NP', tf(JA_NP, rng))
 
 
-def rand_cat(rng, depth, system='en', slashes='/\\|'):
+def rand_cat(rng, depth, system='en', slashes='/\\|', feats=None):
     if depth == 0 or rng.random() < 0.25:
-        return rand_atom(rng, system)
-    return fun(rand_cat(rng, depth - 1, system, slashes), rng.choice(slashes), rand_cat(rng, depth - 1, system, slashes))
+        return rand_atom(rng, system, feats)
+    return fun(rand_cat(rng, depth - 1, system, slashes, feats), rng.choice(slashes), rand_cat(rng, depth - 1, system, slashes, feats))
 
 
 def T(s, f=NOF):
